@@ -176,6 +176,11 @@ impl<F: FixedChannelRegion> RegionHandler for FixedChannelPlan<F> {
         F::datarates().get(dr as usize)?.as_ref()
     }
 
+    fn uplink_datarate_valid(&self, dr: DR) -> bool {
+        // DR8 and above are reserved for downlinks in the fixed channel plans
+        (dr as u8) < 8 && self.get_datarate(dr as u8).is_some()
+    }
+
     fn select_tx_channel<RNG: RngCore>(
         &mut self,
         rng: &mut RNG,
